@@ -203,7 +203,16 @@ def run_shard(ctx):
             ctx.inconc("as refused a template batch")
             continue
         rinsts, _ = refline.read_listing(r[1])
+        segs = [(ri, p, o) for ri in rinsts if not ri.parsed.prefixes and "," not in ri.parsed.mnemonic
+                for p, o in enumerate(ri.ops_att) if re.match(r"^%[a-z]s:", o) and "(" in o]
         rinsts = [ri for ri in rinsts if ri.plain and ri.ops_att]
+        # operands with a segment override carry an extra component: a $deref built from the part after the override must not match
+        for ri, p, o in segs[:6]:
+            inner = o.split(":", 1)[1]
+            if refline.mem_components(inner) and refline.mem_components(inner)[1] and all(
+                    x is not None and RG.clean(x) for x in ri.ops_norm[:p]):
+                judge(ctx, ws, ri, p, derive(rng, inner), "segment-override operand", True)
+                done += 1
         mems = [(ri, p) for ri in rinsts for p, o in enumerate(ri.ops_att) if refline.mem_components(o) and refline.mem_components(o)[1]]
         if not mems:
             continue
